@@ -129,6 +129,8 @@ func (f *Frame) execStmt(st *State, s ast.Stmt) *State {
 			return f.execSwitch(st, inner, x.Label.Name)
 		case *ast.TypeSwitchStmt:
 			return f.execTypeSwitch(st, inner, x.Label.Name)
+		case *ast.SelectStmt:
+			return f.execSelect(st, inner, x.Label.Name)
 		}
 		return f.execStmt(st, x.Stmt)
 	case *ast.BranchStmt:
@@ -151,7 +153,7 @@ func (f *Frame) execStmt(st *State, s ast.Stmt) *State {
 		f.c.note("channel send dropped")
 		return st
 	case *ast.SelectStmt:
-		f.unsupported(s, "select statement")
+		return f.execSelect(st, x, "")
 	}
 	f.unsupported(s, "statement %T", s)
 	return nil
@@ -520,6 +522,35 @@ func (f *Frame) execSwitch(st *State, x *ast.SwitchStmt, label string) *State {
 			outs = append(outs, f.execBlock(rest, defaultClause.Body))
 		} else {
 			outs = append(outs, rest)
+		}
+	}
+	f.brk = f.brk[:len(f.brk)-1]
+	outs = append(outs, bc.breaks...)
+	return f.mergeStates(outs)
+}
+
+// execSelect: which communication is ready is outside the (sequential) model, so every clause is
+// explored from the same state as a nondeterministic choice; a received value is arbitrary, a send is
+// dropped. Blocking is not modelled: the facts proved hold for the executions that get past the select.
+func (f *Frame) execSelect(st *State, x *ast.SelectStmt, label string) *State {
+	f.c.note("select: every clause explored as a nondeterministic choice (channel readiness, blocking and the values received are not modelled)")
+	bc := &breakCtx{label: label}
+	f.brk = append(f.brk, bc)
+	var outs []*State
+	for _, cs := range x.Body.List {
+		cc := cs.(*ast.CommClause)
+		s1 := st.fork()
+		s1.assume(f.c.fresh("selcase", "Bool"))
+		if cc.Comm != nil {
+			switch c := cc.Comm.(type) {
+			case *ast.SendStmt:
+				f.eval(s1, c.Value)
+			default:
+				s1 = f.execStmt(s1, cc.Comm)
+			}
+		}
+		if s1 != nil {
+			outs = append(outs, f.execBlock(s1, cc.Body))
 		}
 	}
 	f.brk = f.brk[:len(f.brk)-1]
